@@ -301,7 +301,7 @@ PROPS['C03'] = _ipc('no hostile party; a second part enumerates, for five fixed 
 PROPS['C02']['parts'] = [{'harness': 'ipc_sim', 'chunk': 40, 'share': 2.0}, {'harness': 'ipc_sim_acc', 'chunk': 20, 'share': 1.0}]
 PROPS['C03']['parts'] = [{'harness': 'ipc_sim', 'chunk': 40, 'share': 1.0}, {'harness': 'ipc_sim_acc', 'chunk': 20, 'share': 0.7},
                          {'harness': 'ipc_sim', 'name': 'ipc_enum', 'prop_arg': 'C03E', 'chunk': 64, 'share': 1.0,
-                          'enum_space': 19200, 'quick_stride': True}]
+                          'enum_space': 20352, 'quick_stride': True}]
 PROPS['C04'] = _ipc('no hostile party', 'at least one connection was announced and the baton changed hands more than four times',
     level_text='seeded search over histories of connects, disconnects/deaths, server-initiated disconnects from callbacks, jobs and timers, extra '
                'references dropped later, closed-callback retries, rate-limit changes, list walks and service destruction; callback-order automaton per '
